@@ -590,6 +590,7 @@ type pathRun struct {
 	ans    []string
 	oracle []string
 	dead   bool // set while skipping the body of a group whose Group() call panicked
+	headRt bool // a route has been registered under HEAD on the current router
 
 	// re-dispatch (rserve kind c): when the op list contains such an op, every router of the run gets the
 	// global middleware `redispatch` at creation (Use inside a group body would add a group handler); it does
@@ -636,6 +637,7 @@ func (p *pathRun) newRouter(f []string) string {
 		p.r.Use(p.redispatch)
 	}
 	p.ids = map[*rux.Route]int{}
+	p.headRt = false
 	return "ok"
 }
 
@@ -648,11 +650,28 @@ func (p *pathRun) one(f []string) (res string) {
 	switch {
 	case f[0] == "reg" && len(f) == 4:
 		id := atoi(f[3])
+		if strings.EqualFold(mustUnhx(f[1]), "HEAD") {
+			p.headRt = true
+		}
 		rt := p.r.Add(mustUnhx(f[2]), func(c *rux.Context) { p.hit = id }, mustUnhx(f[1]))
 		p.ids[rt] = id
 		return hx(rt.Path())
 	case f[0] == "match" && len(f) == 3:
 		rt, _, _ := p.r.Match(mustUnhx(f[1]), mustUnhx(f[2]))
+		// HEAD falls back to the GET routes: on a router without HEAD routes the same path, however it is spelled,
+		// reaches with HEAD what it reaches with GET
+		if mustUnhx(f[1]) == "GET" && !p.headRt {
+			hd := guarded(func() string {
+				h, _, _ := p.r.Match("HEAD", mustUnhx(f[2]))
+				if h != rt {
+					return "another route"
+				}
+				return ""
+			})
+			if hd != "" {
+				p.oracle = append(p.oracle, fmt.Sprintf("C11 Match(HEAD, %q) on a router without HEAD routes: %s than Match(GET, …)", mustUnhx(f[2]), hd))
+			}
+		}
 		if rt == nil {
 			return "none"
 		}
